@@ -44,6 +44,11 @@ def _assigns_mode(fn, b, variant):
 
 
 def run(ctx):
+    _run_main(ctx)
+    rules_r8_r9(ctx)
+
+
+def _run_main(ctx):
     fx, cg = ctx.fx, ctx.cg
 
     # ------------------------------------------------------------------ R1
@@ -419,3 +424,91 @@ def _stale_state_reads(fn, comp):
                         out.append((sb, flds[-1], db))
                     st.append(o[1][0])
     return out
+
+
+def rules_r8_r9(ctx):
+    fx = ctx.fx
+    # ------------------------------------------------------------------ R8 action table
+    r8 = ctx.rule('C17.R8', 'control actions: Continue and every Step action cancel all pending steps, set the mode Running and notify, unconditionally', floor=4, floor_what='resuming action arms')
+    aid = 'trust_runtime::debug::control::DebugControl::apply_action'
+    rec = fx.fns.get(aid)
+    adt = fx.adts.get('trust_runtime::debug::control::ControlAction')
+    if rec is None or adt is None:
+        r8.bad('anchor-missing|apply_action', 'DebugControl::apply_action / ControlAction not found')
+    else:
+        fn = F(rec)
+        names = [v['name'] for v in adt['variants']]
+        sw = None
+        for b in fn.g:
+            t = fn.term(b)
+            if t['k'] == 'switch':
+                l = op_local(t['d'])
+                dd = fn.defs.get(l, []) if l is not None else []
+                if len(dd) == 1 and dd[0][1] == 'A' and dd[0][2][0] == 'discr' and dd[0][2][1] == [2, []]:
+                    sw = b
+                    break
+        if sw is None:
+            r8.bad('action-table', 'no dispatch on the action found in apply_action', loc=fn.loc(0))
+        else:
+            targets = {int(v): tb for v, tb in fn.term(sw)['v']}
+            all_t = set(targets.values())
+            clear = set(fn.blocks_calling(lambda n: re.search(r'(HashMap|BTreeMap|IndexMap|Vec)(::)?<.*>::clear$', n) is not None))
+            notif = {b for b in fn.g for s in fn.bbs[b]['s'] if s[0] == 'A' and not s[1][1] and fn.local_ty(s[1][0]) == 'bool' and s[2][0] == 'use' and s[2][1][0] == 'k' and 'true' in s[2][1][2]
+                     and any(n == 'notify' for n, pl in fn.r['names'] if pl == [s[1][0], []])}
+            if not notif:
+                # structurally: the boolean that guards the notify_all call
+                na = fn.blocks_calling(lambda n: n.endswith('Condvar::notify_all'))
+                flags = set()
+                for l, dl in fn.defs.items():
+                    if fn.local_ty(l) == 'bool' and na:
+                        pos, neg, _ = test_edges(fn, {l: ('bool', True)})
+                        if pos and all(guarded(fn, x, pos) for x in na):
+                            flags.add(l)
+                notif = {b for b in fn.g for s in fn.bbs[b]['s'] if s[0] == 'A' and not s[1][1] and s[1][0] in flags and s[2][0] == 'use' and s[2][1][0] == 'k' and 'true' in s[2][1][2]}
+            running = {b for b in fn.g if _assigns_mode(fn, b, 'Running')}
+            for vi, tb in sorted(targets.items()):
+                if vi >= len(names):
+                    continue
+                nm = names[vi]
+                if nm == 'Pause':
+                    continue
+                r8.saw()
+                region = fn.reach([tb], avoid=all_t - {tb})
+                rets = set(fn.returns())
+                for what, blocks, why in (('cancels-steps', clear, 'pending steps survive the action: the cycle later parks on a Step stop that nobody asked for'),
+                                          ('sets-running', running, 'the mode is not set to Running on every path'),
+                                          ('notifies', notif, 'waiters are not notified on every path: the cycle thread stays parked')):
+                    inreg = blocks & region
+                    ok, path = fn.must_pass_from([tb], inreg) if inreg else (False, None)
+                    key = 'action|%s|%s' % (nm, what)
+                    if ok:
+                        r8.ok(key, loc=fn.loc(tb))
+                    else:
+                        r8.bad(key, 'ControlAction::%s does not always %s: %s' % (nm, what.replace('-', ' '), why), loc=fn.loc(tb))
+
+    # ------------------------------------------------------------------ R9 hook window
+    r9 = ctx.rule('C17.R9', 'the statement hook is only taken out of the context for the duration of the hook call itself: nothing is evaluated while it is missing', floor=1)
+    EVAL = re.compile(r'trust_runtime::eval::(stmt::exec_stmt|stmt::exec_block|expr::eval::eval_expr|eval_expr|call_function|call_method|call_function_block)$')
+    n = 0
+    for k in sorted(fx.fns):
+        if not k.startswith('trust_runtime::eval::'):
+            continue
+        fn = F(fx.fns[k])
+        for b, nm, t in fn.calls(lambda x: re.search(r'Option::<T>::take$', x) is not None):
+            oo = operand_origins(fn, t['a'][0])
+            if not any(o[0] == 'field' and o[1].endswith('EvalContext.debug') for o in oo):
+                continue
+            n += 1
+            r9.saw()
+            restores = {x for x in fn.g if fn.assigns_field(x, lambda f: f.endswith('EvalContext.debug'))}
+            # the window in which the hook is missing: from the Some edge of take() (a hook was there) to the restore
+            pos, neg, _ = call_result_edges(fn, b)
+            window = fn.reach([x for (_, x) in pos], avoid=restores) if pos else fn.reach_after(b, avoid=restores)
+            inside = [x for x in window if EVAL.search(fn.call_name(x) or '')]
+            key = 'hook-window|%s' % k[len('trust_runtime::eval::'):]
+            if inside:
+                r9.bad(key, 'the debug hook is taken out of the context and %s runs before it is put back: statements executed in that window are invisible to the debugger (no stepping into them, no breakpoints, no pause)' % fn.call_name(inside[0]).split('::')[-1], loc=fn.loc(inside[0]))
+            else:
+                r9.ok(key, loc=fn.loc(b))
+    if n == 0:
+        r9.bad('anchor-missing|hook-take', 'no take() of EvalContext.debug found in the evaluator (hook shape changed)')
